@@ -11,8 +11,11 @@ def parseSReq (j : Json) : P Req := do
 def parseLockScope (s : String) : P LockScope :=
   match s with
   | "whole" => pure .whole
+  | "connectOutside" => pure .connectOutside
+  | "connectLocked" => pure .connectLocked
   | "perUnit" => pure (.perKey (·.unit))
   | "perAddr" => pure (.perKey (·.addr))
+  | "outerPerUnit" => pure (.outerPerKey (·.unit))
   | "none" => pure .none
   | "sendOnly" => pure .sendOnly
   | o => throw s!"bad lock scope {o}"
@@ -49,6 +52,12 @@ def opSched (j : Json) : P Json := do
   let mut maxFlight := 0
   let mut stutter : List Nat := []
   let mut pos := 0
+  if isMacro then
+    -- every caller has its first request in hand before the scheduler starts
+    for t in List.range n do
+      if (s.threads t).ops.isEmpty && !(s.threads t).todo.isEmpty then
+        s := step scope s t
+        fine := t :: fine
   for t in sched do
     if !(runnable scope s t) then stutter := pos :: stutter
     if isMacro then
